@@ -10,7 +10,7 @@ Byte strings are hex, the empty string is `-`.
   flush-index-end ok|fail                          -> ok inv=.. fwd=..  (the rest of the flush / the flush returned an error)
   flush-meta-fail                                  -> ok tv=..          (a failed metadata flush changes nothing)
   qpark <point> <metric> <groupKeys|-> | <placement,placement,..> | <cond>
-      -> as q: the query was parked at yield point <point> (dictfind|dictscan|inverted|forward) while the
+      -> as q: the query was parked at yield point <point> (dictfind|dictscan|inverted|forward|grouping|collect) while the
          placement ops ran (reader ‖ flusher); the read order comes from Generated.C10.*MemFirst
   rx <pattern> ok|bad <literalPrefix> <matching value> ...   (one row of the regexp table) -> ok
   q <metric> <groupKey,groupKey|-> <cond>          -> ok s=<ids> g=<groups> | err <kind> | panic
@@ -183,7 +183,12 @@ def fileOf (es : List (Nat × Nat)) : List Container :=
 def readOrder : ReadOrder :=
   { dictScanMemFirst := Generated.C10.dictScanMemFirst
     invMemFirst := Generated.C10.invMemFirst
-    fwdMemFirst := Generated.C10.fwdMemFirst }
+    fwdMemFirst := Generated.C10.fwdMemFirst
+    valuesMemFirst := Generated.C10.valuesMemFirst
+    collectMemFirst := Generated.C10.collectMemFirst
+    suggestMemFirst := Generated.C10.suggestMemFirst
+    invGetMemFirst := Generated.C10.invGetMemFirst
+    groupingMemFirst := Generated.C10.groupingMemFirst }
 
 def stepOfName : String → Option Step
   | "prepare-meta" => some .prepareMeta | "flush-meta" => some .flushMeta | "compact-meta" => some .compactMeta
@@ -193,6 +198,7 @@ def stepOfName : String → Option Step
 def pointOfName : String → Option ParkPoint
   | "dictfind" => some .dictFind | "dictscan" => some .dictScan
   | "inverted" => some .inverted | "forward" => some .forward
+  | "grouping" => some .grouping | "collect" => some .collect
   | _ => none
 
 def showLeaf (r : Except Err LeafResult) : String :=
@@ -280,7 +286,10 @@ def step (d : DSt) (ws : List String) : DSt × String :=
         else
           let s2 := steps.foldl (fun s x => s.step flags x) d.st
           let h := parkedState readOrder pt d.st s2
-          ({ d with st := s2 }, showLeaf (leafQuery flags (matcherOf d.rx) h m keys c))
+          -- a parked GetGroupingContext / CollectKVs only affects the group-by part
+          let r := if pt = .grouping ∨ pt = .collect then leafQuerySplit flags (matcherOf d.rx) s2 h m keys c
+                   else leafQuery flags (matcherOf d.rx) h m keys c
+          ({ d with st := s2 }, showLeaf r)
       | _, _, _, _, _ => (d, "bad-op")
     | _ => (d, "bad-op")
   | "fwdread" :: high :: "|" :: es =>
